@@ -236,15 +236,18 @@ CHECKS["C04"] = {
 CHECKS["C15"] = {
     "text": "Proved for the reader models (for every input): discard_hydrogens is the removal of the hydrogen lines (PDB: fold over the numbered "
             "lines) and hydrogen rows (mmCIF: fold over the atom_site rows); only_atomic_coords in the mmCIF model is the removal of the single "
-            "items. Proved for the name functions (models of guess_format and check_extension / save / save_gz): a path dir/stem.ext is classified "
+            "items; only_first_model in the PDB model is the unrestricted reader on the lines before the record that starts a second model, "
+            "followed by that record's step (which closes the first model as without the option, opens none and stops the reader; a stopped "
+            "reader ignores the rest). Proved for the name functions (models of guess_format and check_extension / save / save_gz): a path dir/stem.ext is classified "
             "by ext alone, case-insensitively; stem.ext.gz selects decompression and the format of ext; names without a dot and hidden files have "
             "no extension. The specification of the options is the C01 / C02 specification applied to the filtered records or rows (hydrogens "
             "removed, first model only, no metadata); every generated text is read by the crate under all eight option sets and compared with it "
             "and with the reader models; 54 file-name shapes are opened (with PDB, mmCIF and gzip contents in turn), probed for a missing file, and "
             "saved through save and save_gz, and the observed choice of reader / writer is compared with the name model.",
     "design_ref": "DESIGN.md section 6 C15",
-    "note": "The only_first_model clause is checked by correspondence and specification only (no theorem: the reader stops at the first row of "
-            "another model, which equals the filter only for contiguous models). Real file-system and gzip behaviour is exercised, not modelled. "
+    "note": "The only_first_model clause of the mmCIF reader is checked by correspondence and specification only (no theorem: the reader stops at the "
+            "first row of another model, which equals the filter only for contiguous models); for the PDB reader the prefix theorem is proved, its "
+            "equality with 'the first model of the unrestricted read' (later records not touching the first model) is checked per text. Real file-system and gzip behaviour is exercised, not modelled. "
             "Trusted: Coq kernel, extraction, harness, flate2.",
     "technique": "Coq proof that the options are filters in the reader models and that the name functions split at the last dot; differential correspondence over all option sets and file-name shapes",
 }
